@@ -2,6 +2,7 @@
 package c15
 
 import (
+	"context"
 	"encoding/binary"
 	"encoding/json"
 	"fmt"
@@ -46,6 +47,9 @@ func setup() error {
 type Req struct {
 	Kind string `json:"kind"` // attests | attest | propose | multisign
 	Keys []int  `json:"keys"`
+	// CancelAt = n > 0: the request's context is cancelled (its client goes away) at the moment the
+	// request has taken its n-th key lock.  The request may then end early; nobody else may hang.
+	CancelAt int `json:"cancel_at,omitempty"`
 }
 
 // Round is a set of requests started together, with a steering plan.
@@ -100,6 +104,10 @@ func genRound(t *rapid.T) Round {
 			keys = append(keys, keys[rapid.IntRange(0, len(keys)-1).Draw(t, "dup_of")])
 		}
 		r.Reqs = append(r.Reqs, Req{Kind: kind, Keys: keys})
+	}
+	if rapid.IntRange(0, 3).Draw(t, "cancel") == 0 {
+		qi := rapid.IntRange(0, len(r.Reqs)-1).Draw(t, "cancel_req")
+		r.Reqs[qi].CancelAt = rapid.IntRange(1, len(r.Reqs[qi].Keys)).Draw(t, "cancel_at")
 	}
 	// steering: pairs of multi-key requests wait for each other after their first lock
 	if rapid.IntRange(0, 9).Draw(t, "steer") < 8 && len(r.Reqs) >= 2 {
@@ -294,6 +302,17 @@ func run(c *Case) (*outcome, *vkit.Violation, error) {
 			rl.Steer[x] = y
 		}
 		epoch += 2
+		cancels := make([]context.CancelFunc, len(round.Reqs))
+		ctxs := make([]context.Context, len(round.Reqs))
+		for qi := range round.Reqs {
+			ctxs[qi], cancels[qi] = context.WithCancel(context.Background())
+		}
+		reqs := round.Reqs
+		rl.OnLocked = func(req int, nth int) {
+			if req >= 0 && req < len(reqs) && reqs[req].CancelAt == nth {
+				cancels[req]()
+			}
+		}
 		var wg sync.WaitGroup
 		start := make(chan struct{})
 		type iv struct{ t0, t1 time.Time }
@@ -303,6 +322,8 @@ func run(c *Case) (*outcome, *vkit.Violation, error) {
 			go func(qi int) {
 				defer wg.Done()
 				rl.Register(qi)
+				defer vkit.SetBaseCtx(ctxs[qi])()
+				defer cancels[qi]()
 				q := round.Reqs[qi]
 				ts := make([]vkit.Target, len(q.Keys))
 				for i, k := range q.Keys {
@@ -437,6 +458,11 @@ func TestC15(t *testing.T) {
 		vkit.S.ClassN("requests", o.requests)
 		for _, rd := range c.Rounds {
 			for _, q := range rd.Reqs {
+				if q.CancelAt > 0 && q.CancelAt < len(q.Keys) {
+					vkit.S.Class("request-cancelled-between-two-of-its-key-locks")
+				} else if q.CancelAt > 0 {
+					vkit.S.Class("request-cancelled-after-its-last-key-lock")
+				}
 				seen := map[int]bool{}
 				for _, k := range q.Keys {
 					if seen[k] {
